@@ -5,7 +5,7 @@
 # (id, property, outcome). Not used by any registered command; /repo itself is not touched.
 set -u
 LANES="${1:-4}"; FILTER="${2:-.}"   # second argument: regex on the seed id, e.g. "C0[23]"
-ROOT=/tmp/lanes
+ROOT=${LANES_ROOT:-/tmp/lanes}
 mkdir -p $ROOT
 ls -d /verif/seeded/C??? 2>/dev/null | xargs -n1 basename | grep -E "$FILTER" | sort > $ROOT/all.txt
 split -n l/$LANES -d $ROOT/all.txt $ROOT/part.
